@@ -46,6 +46,15 @@ class Run:
         self.obligations.append(rec)
         return bool(ok)
 
+    def shape(self, rule: str, construct: str, ok: bool, what: str, site: str = "", **extra: Any) -> bool:
+        """A rule that recognises one spelling of an idiom by its (normalised) source text.  Finding the
+        spelling discharges the obligation; not finding it proves nothing - an equivalent rewrite would
+        look the same - so it is reported as INCONCLUSIVE, never as a violation."""
+        if ok:
+            return self.ob(rule, construct, True, what, site, **extra)
+        self.inconclusive(rule, construct, f"the recognised spelling was not found ({what})")
+        return False
+
     def inconclusive(self, rule: str, site: str, why: str) -> None:
         self.inconclusives.append({"rule": rule, "site": site, "why": why})
 
